@@ -94,7 +94,7 @@ theorem c16_source_routing (hot cold : List (List Call)) (hp cp : Nat → List N
 
 /-- **C16 (outcome).**  For every topology (any number of shards and replicas, read stores optional), every
 assignment of per-call behaviours and every order in which the shards answer: `Search` fails with an error (a panic
-only when some shard has no replica at all), or - see `Honest` - the returned IDs are page `[offset, offset+size)`
+only when some shard has no replica at all, or when the `int` sum `offset+size` wraps - `limitWraps`), or - see `Honest` - the returned IDs are page `[offset, offset+size)`
 of the unique strictly ordered merge over exactly the shards that had an answering replica of the tier that was
 consulted, each ID attributed to a replica that returned it; the result is unflagged iff every shard of that tier
 answered, a flagged result still has an answering shard, a result without store-reported errors means no answering
@@ -114,11 +114,14 @@ theorem c16_outcome (hot cold : List (List Call)) (hotArr coldArr : List (Nat ×
   cases hH : searchStores hotArr with
   | panic =>
     obtain ⟨calls, h1, h2⟩ := panicOf hot hotArr hh hH
-    exact ⟨calls, List.mem_append_left _ h1, h2⟩
+    exact Or.inl ⟨calls, List.mem_append_left _ h1, h2⟩
   | data qs p =>
     have hf := tier_facts hot hotArr hh qs p hH offset size rev
-    simp only [finish, Honest, Bool.false_eq_true, if_false]
-    exact ⟨hf.1, hf.2.1, hf.2.2.1, hf.2.2.2.1, hf.2.2.2.2, by simp⟩
+    simp only [finish]
+    split
+    · rename_i hw; exact Or.inr hw
+    · simp only [Honest, Bool.false_eq_true, if_false]
+      exact ⟨hf.1, hf.2.1, hf.2.2.1, hf.2.2.2.1, hf.2.2.2.2, by simp⟩
   | err k =>
     cases k with
     | tmf => simp [finish, Honest]
@@ -132,22 +135,26 @@ theorem c16_outcome (hot cold : List (List Call)) (hotArr coldArr : List (Nat ×
         | err k => simp [finish, Honest]
         | panic =>
           obtain ⟨calls, h1, h2⟩ := panicOf cold coldArr hc hC
-          exact ⟨calls, List.mem_append_right _ h1, h2⟩
+          exact Or.inl ⟨calls, List.mem_append_right _ h1, h2⟩
         | data qs p =>
           have hf := tier_facts cold coldArr hc qs p hC offset size rev
-          simp only [finish, Honest, if_true]
-          refine ⟨hf.1, hf.2.1, hf.2.2.1, hf.2.2.2.1, hf.2.2.2.2, fun _ => ?_⟩
-          obtain ⟨e, he, hw⟩ := storesLoop_wod _ _ _ _ hH
-          obtain ⟨calls, h1, h2⟩ := (mem_arrival hh e.1 e.2).mp he
-          exact ⟨calls, mem_tier_of_getElem? h1, by rw [h2, hw]⟩
+          simp only [finish]
+          split
+          · rename_i hw; exact Or.inr hw
+          · simp only [Honest, if_true]
+            refine ⟨hf.1, hf.2.1, hf.2.2.1, hf.2.2.2.1, hf.2.2.2.2, fun _ => ?_⟩
+            obtain ⟨e, he, hw⟩ := storesLoop_wod _ _ _ _ hH
+            obtain ⟨calls, h1, h2⟩ := (mem_arrival hh e.1 e.2).mp he
+            exact ⟨calls, mem_tier_of_getElem? h1, by rw [h2, hw]⟩
 
 /-- **C16 (it does degrade, and only as far as needed).**  When no hot shard refuses (wants-old-data,
 too-many-fractions) and every shard has a replica: all shards answer => a complete result; some answer and some do
-not => a result flagged partial; none answers => an error.  Whatever the arrival order. -/
+not => a result flagged partial; none answers => an error.  Whatever the arrival order.  (`hlim`: the `int` sum
+`offset+size` does not wrap; outside it every request that reaches the merge panics - `c16_limit_wrap`.) -/
 theorem c16_degrades (hot : List (List Call)) (hotArr coldArr : List (Nat × ShardRes))
     (hh : hotArr.Perm (indexed 0 (hot.map searchShard)))
     (hn : ∀ calls ∈ hot, searchShard calls ≠ .wod ∧ searchShard calls ≠ .tmf ∧ calls ≠ [])
-    (offset size : Nat) (rev : Bool) :
+    (offset size : Nat) (hlim : limitWraps offset size = false) (rev : Bool) :
     ((∀ calls ∈ hot, (searchShard calls).isOk = true) →
       ∃ ids t e, search hotArr coldArr offset size rev = .ok ids t e false false) ∧
     ((∃ calls ∈ hot, (searchShard calls).isOk = true) → (∃ calls ∈ hot, (searchShard calls).isOk = false) →
@@ -192,10 +199,12 @@ theorem c16_degrades (hot : List (List Call)) (hotArr coldArr : List (Nat × Sha
     have := hloop.2 hz
     unfold search searchStores
     rw [this]
+    simp only [finish, hlim, Bool.false_eq_true, if_false]
     exact ⟨_, _, _, rfl⟩
   · have := (hloop.1 (badMem hbad)).1 (okMem hsome)
     unfold search searchStores
     rw [this]
+    simp only [finish, hlim, Bool.false_eq_true, if_false]
     exact ⟨_, _, _, rfl⟩
   · have hnil : oks hotArr = [] := by
       cases ho : oks hotArr with
@@ -222,13 +231,45 @@ theorem c16_top_unique (rev : Bool) (P : List ProxySearch.ID → Prop) (f g : Li
 /-- every shard has a replica => `Search` never panics -/
 theorem c16_no_panic (hot cold : List (List Call)) (hotArr coldArr : List (Nat × ShardRes))
     (hh : hotArr.Perm (indexed 0 (hot.map searchShard))) (hc : coldArr.Perm (indexed 0 (cold.map searchShard)))
-    (hne : ∀ calls ∈ hot ++ cold, calls ≠ []) (offset size : Nat) (rev : Bool) :
+    (hne : ∀ calls ∈ hot ++ cold, calls ≠ []) (offset size : Nat) (hlim : limitWraps offset size = false) (rev : Bool) :
     search hotArr coldArr offset size rev ≠ .panic := by
   intro h
   have := c16_outcome hot cold hotArr coldArr hh hc offset size rev
   rw [h] at this
-  obtain ⟨calls, h1, h2⟩ := this
-  exact hne calls h1 h2
+  rcases this with ⟨calls, h1, h2⟩ | hw
+  · exact hne calls h1 h2
+  · rw [hlim] at hw; cases hw
+
+/-- **the `int` wrap of `Offset+Size`.**  When the sum reaches 2^63 (e.g. Offset = MaxInt64, Size = 1 - both pass the
+"negative size or offset" check) every request whose shards deliver data panics inside `MergeQPRs`
+(`ids[:min(len(ids), limit)]` with a negative limit), whatever they delivered; under the proxy's recover interceptor
+the client sees an Internal error, which this property allows.  Requests that fail before the merge fail as usual. -/
+theorem c16_limit_wrap (hotArr coldArr : List (Nat × ShardRes)) (offset size : Nat) (rev : Bool)
+    (hw : limitWraps offset size = true) :
+    (∀ ids t e p c, search hotArr coldArr offset size rev ≠ .ok ids t e p c) ∧
+    (∀ qs p, searchStores hotArr = .data qs p → search hotArr coldArr offset size rev = .panic) := by
+  constructor
+  · intro ids t e p c h
+    obtain ⟨qs, hst, _⟩ := search_ok_tier hotArr coldArr offset size rev ids t e p c h
+    unfold search at h
+    cases c with
+    | false =>
+      simp only [Bool.false_eq_true, if_false] at hst
+      rw [hst] at h; simp [finish, hw] at h
+    | true =>
+      simp only [if_true] at hst
+      cases hH : searchStores hotArr with
+      | panic => rw [hH] at h; simp [finish] at h
+      | data qs' p' => rw [hH] at h; simp [finish, hw] at h
+      | err k =>
+        rw [hH] at h
+        cases k <;> simp only [finish] at h <;> (try cases h)
+        split at h
+        · cases h
+        · rw [hst] at h; simp at h
+  · intro qs p h
+    unfold search
+    rw [h]; simp [finish, hw]
 
 /-- **C16 (old data).**  If a hot shard declares the range older than its retention (and no hot shard refuses with
 too-many-fractions) then, whatever the other hot shards answered and in whatever order, the answer is decided by
@@ -282,7 +323,8 @@ theorem c16_merge_models_agree (rev : Bool) (offset size L hi : Nat) (qs : List 
 
 open SV.ProxyCompose in
 /-- **C16 ∘ C05.**  Hypotheses, by origin:
-* *this property (C16)*: `hh` - the arrival order is any permutation of the shard answers; `hn` - no hot shard
+* *this property (C16)*: `hh` - the arrival order is any permutation of the shard answers; `hlim` - the `int` sum
+  `offset+size` does not wrap (else `c16_limit_wrap`: a panic); `hn` - no hot shard
   refuses (wants-old-data / too-many-fractions) and every shard has a replica; `hsome` - some shard answers.
 * *link*: `hans` - the response of an answering replica carries the IDs `SearchDocs` (C05's model of the store)
   returns for that replica's fractions with limit `offset+size`, RIDs fitting `uint64`; `hdesc` - same order.
@@ -295,7 +337,7 @@ the answering shards (`Merge.sd`, characterised by `c05_sd_spec`), so a document
 is listed once. -/
 theorem c16_c05_compose (c : Merge.Cfg) (from_ to_ : Nat) (hot : List (List Call))
     (hotArr coldArr : List (Nat × ShardRes)) (hh : hotArr.Perm (indexed 0 (hot.map searchShard)))
-    (offset size : Nat) (rev : Bool) (hdesc : c.desc = !rev)
+    (offset size : Nat) (hlim : limitWraps offset size = false) (rev : Bool) (hdesc : c.desc = !rev)
     (fracs : Nat → Nat → List Merge.Frac) (shardDocs : Nat → List Nat)
     (hn : ∀ calls ∈ hot, searchShard calls ≠ .wod ∧ searchShard calls ≠ .tmf ∧ calls ≠ [])
     (hsome : ∃ calls ∈ hot, (searchShard calls).isOk = true)
@@ -313,7 +355,7 @@ theorem c16_c05_compose (c : Merge.Cfg) (from_ to_ : Nat) (hot : List (List Call
             ((hot[s]?).map fun calls => (searchShard calls).isOk).getD false).flatMap shardDocs)).drop offset).take size ∧
       (ids.map (fun x => keyOf x.1)).Nodup ∧ (∀ x ∈ ids, x.1.2 < Merge.R) := by
   -- the request succeeds from the hot tier (C16)
-  have hdeg := c16_degrades hot hotArr coldArr hh hn offset size rev
+  have hdeg := c16_degrades hot hotArr coldArr hh hn offset size hlim rev
   have hex : ∃ ids t e p, search hotArr coldArr offset size rev = .ok ids t e p false := by
     by_cases hall : ∀ calls ∈ hot, (searchShard calls).isOk = true
     · obtain ⟨ids, t, e, h⟩ := hdeg.1 hall; exact ⟨ids, t, e, false, h⟩
@@ -330,8 +372,9 @@ theorem c16_c05_compose (c : Merge.Cfg) (from_ to_ : Nat) (hot : List (List Call
   have hon := c16_outcome hot [] hotArr [] hh (by simp [indexed]) offset size rev
   obtain ⟨qs, hst, hids, _⟩ := search_ok_hot hotArr coldArr offset size rev ids t e p hs
   have hs' : search hotArr [] offset size rev = .ok ids t e p false := by
-    unfold search; rw [hst]; simp only [finish]; rw [hids]
-    have := hs; unfold search at this; rw [hst] at this; simp only [finish] at this
+    unfold search; rw [hst]; simp only [finish, hlim, Bool.false_eq_true, if_false]; rw [hids]
+    have := hs; unfold search at this; rw [hst] at this
+    simp only [finish, hlim, Bool.false_eq_true, if_false] at this
     injection this with h1 h2 h3 h4 h5
     rw [h2, h3]
   rw [hs'] at hon
@@ -407,7 +450,7 @@ open SV.ProxyCompose in
 ordered list of the matching documents of *all* shards -/
 theorem c16_c05_complete (c : Merge.Cfg) (from_ to_ : Nat) (hot : List (List Call))
     (hotArr coldArr : List (Nat × ShardRes)) (hh : hotArr.Perm (indexed 0 (hot.map searchShard)))
-    (offset size : Nat) (rev : Bool) (hdesc : c.desc = !rev)
+    (offset size : Nat) (hlim : limitWraps offset size = false) (rev : Bool) (hdesc : c.desc = !rev)
     (fracs : Nat → Nat → List Merge.Frac) (shardDocs : Nat → List Nat)
     (hne : hot ≠ []) (hall : ∀ calls ∈ hot, (searchShard calls).isOk = true)
     (hans : ∀ s calls rep ids t e, hot[s]? = some calls → searchShard calls = .ok rep ids t e →
@@ -430,7 +473,7 @@ theorem c16_c05_complete (c : Merge.Cfg) (from_ to_ : Nat) (hot : List (List Cal
     cases hot with
     | nil => exact absurd rfl hne
     | cons x xs => exact ⟨x, List.mem_cons_self, hall x List.mem_cons_self⟩
-  obtain ⟨ids, t, e, p, h1, h2, h3, _, _⟩ := c16_c05_compose c from_ to_ hot hotArr coldArr hh offset size rev hdesc fracs
+  obtain ⟨ids, t, e, p, h1, h2, h3, _, _⟩ := c16_c05_compose c from_ to_ hot hotArr coldArr hh offset size hlim rev hdesc fracs
     shardDocs hn hsome hans hinv hvis hmax hrep
   have hp : p = false := h2.mpr hall
   subst hp
@@ -462,7 +505,8 @@ Conclusion: `Search` succeeds, is unflagged iff every shard answered, and its ID
 shards, matching `q` in `[from, to]`; no ID occurs twice. -/
 theorem c16_e2e_spec (c : Merge.Cfg) (q : Spec.Query) (from_ to_ : Nat) (hot : List (List Call))
     (hotArr coldArr : List (Nat × ShardRes)) (hh : hotArr.Perm (indexed 0 (hot.map searchShard)))
-    (offset size : Nat) (rev : Bool) (hdesc : c.desc = !rev) (fracs : Nat → List Merge.FracIdx)
+    (offset size : Nat) (hlim : limitWraps offset size = false) (rev : Bool) (hdesc : c.desc = !rev)
+    (fracs : Nat → List Merge.FracIdx)
     (hok : ∀ s, ∀ f ∈ fracs s, f.OK from_)
     (hmax : ∀ s, c.maxHits = 0 ∨ (Merge.filterInRange (storeFracs (fracs s) q from_ to_) from_ to_).length ≤ c.maxHits)
     (hn : ∀ calls ∈ hot, searchShard calls ≠ .wod ∧ searchShard calls ≠ .tmf ∧ calls ≠ [])
@@ -479,7 +523,7 @@ theorem c16_e2e_spec (c : Merge.Cfg) (q : Spec.Query) (from_ to_ : Nat) (hot : L
           q from_ to_ rev (offset + size) c.withTotal).ids.drop offset).take size ∧
       (ids.map (fun x => toSpecID x.1)).Nodup := by
   have hinvvis := fun s => storeFracs_inv (fracs s) q from_ to_ (hok s)
-  obtain ⟨ids, t, e, p, h1, h2, h3, h4, h5⟩ := c16_c05_compose c from_ to_ hot hotArr coldArr hh offset size rev hdesc
+  obtain ⟨ids, t, e, p, h1, h2, h3, h4, h5⟩ := c16_c05_compose c from_ to_ hot hotArr coldArr hh offset size hlim rev hdesc
     (fun s _ => storeFracs (fracs s) q from_ to_) (fun s => Merge.docsOf (storeFracs (fracs s) q from_ to_))
     hn hsome hans (fun s _ => (hinvvis s).1) (fun s _ => (hinvvis s).2) (fun s _ => hmax s) (fun _ _ _ => Iff.rfl)
   have hspec := sd_stores_eq_spec c.desc ((List.range hot.length).filter fun s =>
@@ -510,7 +554,8 @@ open SV.ProxyCompose SV.ProxyE2E in
 over all documents of all fractions of *all* shards -/
 theorem c16_e2e_spec_complete (c : Merge.Cfg) (q : Spec.Query) (from_ to_ : Nat) (hot : List (List Call))
     (hotArr coldArr : List (Nat × ShardRes)) (hh : hotArr.Perm (indexed 0 (hot.map searchShard)))
-    (offset size : Nat) (rev : Bool) (hdesc : c.desc = !rev) (fracs : Nat → List Merge.FracIdx)
+    (offset size : Nat) (hlim : limitWraps offset size = false) (rev : Bool) (hdesc : c.desc = !rev)
+    (fracs : Nat → List Merge.FracIdx)
     (hok : ∀ s, ∀ f ∈ fracs s, f.OK from_)
     (hmax : ∀ s, c.maxHits = 0 ∨ (Merge.filterInRange (storeFracs (fracs s) q from_ to_) from_ to_).length ≤ c.maxHits)
     (hne : hot ≠ []) (hall : ∀ calls ∈ hot, (searchShard calls).isOk = true)
@@ -533,7 +578,7 @@ theorem c16_e2e_spec_complete (c : Merge.Cfg) (q : Spec.Query) (from_ to_ : Nat)
     cases hot with
     | nil => exact absurd rfl hne
     | cons x xs => exact ⟨x, List.mem_cons_self, hall x List.mem_cons_self⟩
-  obtain ⟨ids, t, e, p, h1, h2, h3, h4⟩ := c16_e2e_spec c q from_ to_ hot hotArr coldArr hh offset size rev hdesc fracs
+  obtain ⟨ids, t, e, p, h1, h2, h3, h4⟩ := c16_e2e_spec c q from_ to_ hot hotArr coldArr hh offset size hlim rev hdesc fracs
     hok hmax hn hsome hans
   have hp : p = false := h2.mpr hall
   subst hp
@@ -1081,6 +1126,13 @@ example :
       subst h1 h2 h3 h4
       refine ⟨by decide, ⟨[(7, 1), (5, 2)].map ProxyCompose.keyOf, 0, some []⟩, by decide +kernel, rfl⟩
     | n + 1, hs => simp [hot] at hs
+
+/-- Offset = MaxInt64, Size = 1: the shard answers, the `int` sum wraps, `MergeQPRs` panics -/
+example : search [(0, searchShard [.resp .none [(9, 1)] 1 0])] [] 9223372036854775807 1 false = .panic := by decide
+
+/-- Offset = 2^62, Size = MaxInt32: no wrap, an empty complete page -/
+example : search [(0, searchShard [.resp .none [(9, 1)] 1 0])] [] 4611686018427387904 2147483647 false
+    = .ok [] 1 0 false false := by decide
 
 /-- three sources, one stream truncated, one carrying an unrequested and a repeated document, hints present -/
 example :
